@@ -826,6 +826,8 @@ def check_k6_k7(chk, m, cfg):
                     got = not taken
                 else:
                     used = True
+            if got is None and any(paths.contains(c, lambda x: x[0] == "call" and x[1] in ("ringbuf_empty",)) for c, t_, i_ in p.conds):
+                got = True      # fetched only after the ring was asked whether it holds anything
             if not got:
                 continue
             for e2 in p.events[k + 1:]:
